@@ -256,6 +256,39 @@ func c01Check(sc *syncCase, files []c01File, src2files []c01File) core.Result {
 				}
 			}
 		}
+	case sc.Form == "two-noslash":
+		if e.r {
+			for _, f := range files {
+				if fl := check(f, "src/"+f.path, sc.Src.Find(f.path).Mtime); fl != nil {
+					res.Fail = fl
+					return res
+				}
+			}
+			for _, f := range src2files {
+				if fl := check(f, "src2/"+f.path, sc.Src2.Find(f.path).Mtime); fl != nil {
+					res.Fail = fl
+					return res
+				}
+			}
+		}
+	case strings.HasPrefix(sc.Form, "two-files:"):
+		rel := strings.TrimPrefix(sc.Form, "two-files:")
+		for _, f := range files {
+			if f.path == rel {
+				if fl := check(f, rel[strings.LastIndex(rel, "/")+1:], sc.Src.Find(rel).Mtime); fl != nil {
+					res.Fail = fl
+					return res
+				}
+			}
+		}
+		for _, f := range src2files {
+			if f.path == "second-1" {
+				if fl := check(f, "second-1", sc.Src2.Find("second-1").Mtime); fl != nil {
+					res.Fail = fl
+					return res
+				}
+			}
+		}
 	case strings.HasPrefix(sc.Form, "sub"):
 		rel := sc.Form[strings.Index(sc.Form, ":")+1:] + "/"
 		if e.r {
@@ -340,7 +373,7 @@ func init() {
 	core.Register(&core.Prop{
 		ID:    "C01",
 		Level: "model_checking",
-		Rule: "part matrix: every (option subset of {-l,-p,-t,-g,-o,-D,-c,-I,-a} with -r) x arrangement {daemon-pull, daemon-push, local, lib-pull, lib-push} is a real session over a tree holding the full product size x content family x prior-destination variant (absent, identical, edited, truncated, extended, other type in the way, ...); part forms: source forms (directory itself, single file, two sources, no -r) x option sets x arrangements; part forms also covers directories and their contents below the source root (module/sub/dir, module/sub/dir/); part cli: the gokr-rsync command in its own process with its default landlock sandbox, for 8 ways of naming the source (dir/, dir, file, two sources, nested directory, nested file, ./dir, path with ..) x {-r,-a,-rt,-d} x {local copy, push to and pull from a daemon on a loopback socket}: exit status 0 and every expected file present with the source's bytes; part big: sizes around the 256 KiB chunk/window (thorough: 12 boundary sizes up to 3 MiB x 6 families); part histories: explicit-state BFS (depth 2, thorough 3) over edits on either side (4 contents incl. empty and same-size twins, deletes, symlink/directory in the way) and real syncs with 4 option sets x 5 arrangements, so that prior destination states are reached by earlier syncs. " +
+		Rule: "part matrix: every (option subset of {-l,-p,-t,-g,-o,-D,-c,-I,-a} with -r) x arrangement {daemon-pull, daemon-push, local, lib-pull, lib-push} is a real session over a tree holding the full product size x content family x prior-destination variant (absent, identical, edited, truncated, extended, other type in the way, ...); part forms: source forms (directory itself, single file, two sources, no -r) x option sets x arrangements; part forms also covers two prefix-named directories (src, src2) named without trailing slash and a file from each, directories and their contents below the source root (module/sub/dir, module/sub/dir/); part cli: the gokr-rsync command in its own process with its default landlock sandbox, for 8 ways of naming the source (dir/, dir, file, two sources, nested directory, nested file, ./dir, path with ..) x {-r,-a,-rt,-d} x {local copy, push to and pull from a daemon on a loopback socket}: exit status 0 and every expected file present with the source's bytes; part big: sizes around the 256 KiB chunk/window (thorough: 12 boundary sizes up to 3 MiB x 6 families); part histories: explicit-state BFS (depth 2, thorough 3) over edits on either side (4 contents incl. empty and same-size twins, deletes, symlink/directory in the way) and real syncs with 4 option sets x 5 arrangements, so that prior destination states are reached by earlier syncs. " +
 			"states = regular files whose destination bytes were compared with the reference update rule, transitions = sessions; a case is non-trivial when at least one file was actually replaced",
 		Assum: []string{"tmpfs scratch behaves like a POSIX file system", "sessions run as root"},
 		Parts: func(tier string) []core.Part {
@@ -407,6 +440,14 @@ func c01BuildForms(tier string) core.Source {
 			cases = append(cases, c01Case{arr: arr, args: args, form: "dir"})
 			if arr != drive.DaemonPull {
 				cases = append(cases, c01Case{arr: arr, args: args, form: "two"})
+				cases = append(cases, c01Case{arr: arr, args: args, form: "two-noslash"})
+				for _, s := range singles {
+					// a file directly in src/: its parent directory's path is a prefix of src2's
+					if !strings.Contains(s, "/") {
+						cases = append(cases, c01Case{arr: arr, args: args, form: "two-files:" + s})
+						break
+					}
+				}
 			}
 			for _, s := range singles {
 				cases = append(cases, c01Case{arr: arr, args: args, form: "file:" + s})
@@ -423,6 +464,11 @@ func c01BuildForms(tier string) core.Source {
 		sc := &syncCase{Arr: c.arr, Args: c.args, Src: src, Dst: dst, Form: c.form}
 		if c.form == "two" {
 			sc.Src2 = src2
+			return c01Check(sc, files, files2)
+		}
+		if c.form == "two-noslash" || strings.HasPrefix(c.form, "two-files:") {
+			sc.Src2 = src2
+			sc.Dst = nil
 			return c01Check(sc, files, files2)
 		}
 		if strings.HasPrefix(c.form, "sub") {
